@@ -363,6 +363,30 @@ Proof.
     rewrite (forallb_not_in _ _ _ F I) in An. discriminate An.
 Qed.
 
+(* a peer is announced as connected only together with, and after, the registration that actually
+   added it (no exception any more since addPeer answers "exists" for a closed connection) *)
+Lemma inbound_notify_after_register has_notifier add r A T :
+  In (ENotify A T) (handle_connect_req has_notifier add r) ->
+  r = Enrol A T /\ add = Added /\ has_notifier = true /\
+  handle_connect_req has_notifier add r = [ERegister A T; ENotify A T].
+Proof.
+  destruct r as [a t|c].
+  - destruct add, has_notifier; cbn [handle_connect_req In]; intros H;
+      repeat (destruct H as [H|H]; try discriminate H; try contradiction H).
+    inversion H. subst. repeat split; reflexivity.
+  - intros I. destruct (inbound_refuse_effects has_notifier add c) as (_ & _ & F).
+    pose proof (forallb_not_in _ _ _ F I) as N. discriminate N.
+Qed.
+
+(* the pre-fix wrapper announced a peer that was never registered *)
+Lemma handle_connect_req_v0_refuted :
+  exists add a t, In (ENotify a t) (handle_connect_req_v0 true add (Enrol a t)) /\
+                  ~ In (ERegister a t) (handle_connect_req_v0 true add (Enrol a t)).
+Proof.
+  exists ClosedAbsent_v0, [1%N], 2. vm_compute. split; [left; reflexivity|].
+  intros [H|[]]. discriminate H.
+Qed.
+
 (* ---- the composed statements ------------------------------------------------------------------------------- *)
 Theorem responder_sound c o wfail script has_notifier add A T :
   In (ERegister A T) (inbound c o wfail script has_notifier add) \/
@@ -414,6 +438,15 @@ Proof.
   - apply V3. apply role_of_string_provider. assumption.
   - rewrite L. rewrite H0. reflexivity.
   - intros N. rewrite L. apply Z.eqb_neq in N. rewrite N. reflexivity.
+Qed.
+
+Theorem notify_only_after_register c o wfail script has_notifier add A T :
+  In (ENotify A T) (inbound c o wfail script has_notifier add) ->
+  inbound c o wfail script has_notifier add = [ERegister A T; ENotify A T] /\
+  add = Added /\ resp_ok c o wfail script A T.
+Proof.
+  unfold inbound. intros H. apply inbound_notify_after_register in H.
+  destruct H as (R & Ad & _ & E). repeat split; auto. apply handle_enrol_iff. exact R.
 Qed.
 
 Theorem refuse_responder c o wfail script :
